@@ -50,4 +50,4 @@ replay = histcheck.make_replay(HOOKS, configs=CONFIGS5)
 
 
 def shards(tier):
-    return histcheck.std_shards(tier, 700, 6000)
+    return histcheck.std_shards(tier, 700, 6000, bulk=2 if tier == "thorough" else 0)
